@@ -152,6 +152,27 @@ func suiteEvaluators(tier string, seed uint64, model string) *Report {
 		}
 		cases = append(cases, cs{p, d})
 	}
+	dps, dds := directedJpCases()
+	for i := range dps {
+		cases = append(cases, cs{dps[i], dds[i]})
+	}
+	// a path that ends in a bare descent has no specified result list, but the representations must
+	// still agree with each other on it: same elements, same order where the data defines one
+	for i := 0; i < n/20; i++ {
+		d := genArrayTree(r, 1+r.Intn(4))
+		p := genPath(r, 1)
+		if p[len(p)-1].Kind != "D" {
+			p = append(p, Frag{Kind: "D"})
+		}
+		x := BuildExpr(p)
+		rep.Evaluations++
+		simple := safe(func() string { return strings.Join(showList(x.Get(d)), " ; ") })
+		onGen := safe(func() string { return strings.Join(showList(x.Get(toGen(d))), " ; ") })
+		ordered := !multiKeyObject(d) && strings.Count(PathSexp(p), " D") == 1
+		if strings.HasPrefix(simple, "F ") || strings.HasPrefix(onGen, "F ") || !sameList(splitResults(simple), splitResults(onGen), ordered) {
+			rep.Add(Disagreement{Case: PathSexp(p) + "\t" + Show(d), Where: "Expr.Get/gen vs Expr.Get (trailing descent)", Kind: "impl-law:representations", Impl: onGen, Spec: simple})
+		}
+	}
 	var reqs []string
 	for _, c := range cases {
 		ps, ds := PathSexp(c.path), Show(c.data)
@@ -215,18 +236,21 @@ func suiteEvaluators(tier string, seed uint64, model string) *Report {
 			}
 		}
 		// Locate: normalised paths + the value each one leads to
-		loc := safe(func() string {
-			var out []string
-			for _, p := range x.Locate(c.data, 0) {
-				vs := p.Get(c.data)
-				val := "<" + strconv.Itoa(len(vs)) + " results>"
-				if len(vs) == 1 {
-					val = Show(vs[0])
+		locRun := func(x jp.Expr) string {
+			return safe(func() string {
+				var out []string
+				for _, p := range x.Locate(c.data, 0) {
+					vs := p.Get(c.data)
+					val := "<" + strconv.Itoa(len(vs)) + " results>"
+					if len(vs) == 1 {
+						val = Show(vs[0])
+					}
+					out = append(out, npathSexp(p)+" | "+val)
 				}
-				out = append(out, npathSexp(p)+" | "+val)
-			}
-			return strings.Join(out, " ; ")
-		})
+				return strings.Join(out, " ; ")
+			})
+		}
+		loc := locRun(x)
 		locClass := func(impl string) string {
 			// equal to the specification variant that normalises slices as Slice.startEndStep does
 			if !strings.HasPrefix(impl, "F ") && pathHas(c.path, "s") && sameList(splitResults(impl), mLocSes, false) {
@@ -234,26 +258,51 @@ func suiteEvaluators(tier string, seed uint64, model string) *Report {
 			}
 			return ""
 		}
+		// exact attribution for the recorded behaviour "Locate and Walk do not resolve $ inside a
+		// filter against the document": with every $-operand replaced by the scalar it denotes, the
+		// same call gives the specified result
+		rootClass := func(run func(x jp.Expr) string, locOrdered bool) string {
+			dp, changed, ok := defuseRootOperands(c.path, c.data)
+			if !changed || !ok {
+				return ""
+			}
+			got := run(BuildExpr(dp))
+			if !strings.HasPrefix(got, "F ") && sameList(splitResults(got), mLoc, locOrdered) {
+				return "filter-root-operand-in-locate-walk"
+			}
+			return ""
+		}
 		// Locate and Walk report a set of paths: filters enumerate their matches from the end
 		locOrdered := ordered && !pathHas(c.path, "f")
 		if strings.HasPrefix(loc, "F ") || !sameList(splitResults(loc), mLoc, locOrdered) {
-			rep.Add(Disagreement{Case: desc, Where: "Expr.Locate", Kind: "impl-vs-spec:evaluator", Impl: loc, Spec: strings.Join(mLoc, " ; "), Class: locClass(loc)})
+			cl := locClass(loc)
+			if cl == "" {
+				cl = rootClass(locRun, locOrdered)
+			}
+			rep.Add(Disagreement{Case: desc, Where: "Expr.Locate", Kind: "impl-vs-spec:evaluator", Impl: loc, Spec: strings.Join(mLoc, " ; "), Class: cl})
 		}
 		// Expr.Walk
-		walk := safe(func() string {
-			var out []string
-			x.Walk(c.data, func(path jp.Expr, nodes []any) {
-				ps := npathSexp(path)
-				if len(c.path) > 0 && c.path[0].Kind == "R" { // Expr.Walk leaves the root fragment out
-					ps = strings.Replace(ps, "(p ", "(p R ", 1)
-					ps = strings.Replace(ps, "(p R )", "(p R)", 1)
-				}
-				out = append(out, ps+" | "+Show(nodes[len(nodes)-1]))
+		walkRun := func(x jp.Expr) string {
+			return safe(func() string {
+				var out []string
+				x.Walk(c.data, func(path jp.Expr, nodes []any) {
+					ps := npathSexp(path)
+					if len(c.path) > 0 && c.path[0].Kind == "R" { // Expr.Walk leaves the root fragment out
+						ps = strings.Replace(ps, "(p ", "(p R ", 1)
+						ps = strings.Replace(ps, "(p R )", "(p R)", 1)
+					}
+					out = append(out, ps+" | "+Show(nodes[len(nodes)-1]))
+				})
+				return strings.Join(out, " ; ")
 			})
-			return strings.Join(out, " ; ")
-		})
+		}
+		walk := walkRun(x)
 		if strings.HasPrefix(walk, "F ") || !sameList(splitResults(walk), mLoc, locOrdered) {
-			rep.Add(Disagreement{Case: desc, Where: "Expr.Walk", Kind: "impl-vs-spec:evaluator", Impl: walk, Spec: strings.Join(mLoc, " ; "), Class: locClass(walk)})
+			cl := locClass(walk)
+			if cl == "" {
+				cl = rootClass(walkRun, locOrdered)
+			}
+			rep.Add(Disagreement{Case: desc, Where: "Expr.Walk", Kind: "impl-vs-spec:evaluator", Impl: walk, Spec: strings.Join(mLoc, " ; "), Class: cl})
 		}
 		// gen data: GetNodes / FirstNode / Get on gen
 		gd := toGen(c.data)
